@@ -216,6 +216,22 @@ def run_keyid(spec, rec: Recorder):
             for i, (label, m) in enumerate(mutate.keyid_boundary_mutations(base, rng)):
                 execute(rec, cache, m, f"{base.name} {label}", loop, "async" if i % 4 == 3 else "sync", True)
                 rec.seen("keyid_cases", label.split("=")[0])
+            # every constructed element of the blob repeated 3 / 300 times (consistent lengths): the work must stay bounded
+            # however many recipients, attributes or parameters a blob claims to have
+            from vf.ref import der as _der
+
+            for idx, nd in enumerate(mutate.tlv_map(base.blob)[1:], 1):
+                enc = base.blob[nd.offset : nd.offset + nd.total]
+                if not nd.constructed or len(enc) * 300 > 400000:
+                    continue
+                bad = bytearray(enc)
+                bad[-1] ^= 0x01  # the same element with its last content octet altered (for a recipient: its wrapped key)
+                bad = bytes(bad)
+                for times in (3, 300):
+                    for form, body in (("repeated", enc * times), ("altered copy repeated", bad * times), ("altered copies then the original", bad * (times - 1) + enc)):
+                        m = mutate.consistent_rewrite(base.blob, nd, rng, force=body)
+                        execute(rec, cache, m, f"{base.name} constructed element {idx} {form} x{times}", loop, "sync")
+                        rec.count("repeated_element_cases")
         rec.sample({"bases": spec["bases"], "kind": "key identifier / key_info / SID / parameter boundary values", "example": label})
         rec.mark_exhaustive("listed key identifier boundary values x listed base blobs")
     finally:
